@@ -11,6 +11,11 @@ import py2lean  # noqa: E402
 
 N, B, L, T = py2lean.N, py2lean.B, py2lean.L, py2lean.T
 
+_SUP_FNS = {"constraint_stride_range": "stride_range", "constraint_dilated_height_range": "dilated_height_range",
+            "constraint_dilated_product_range": "dilated_product_range",
+            "constraint_filter_height_range": "filter_height_range",
+            "constraint_filter_product_range": "filter_product_range", "constraint_filter_range": "filter_range"}
+
 # key -> (path relative to the repo, Lean module name, [functions], per-function configuration)
 MODULES = {
     "fp_math": ("ethosu/vela/fp_math.py", "SrcFpMath", [
@@ -88,6 +93,30 @@ MODULES = {
          "shape3d_size": {"records": ["shape"]},
          "coords_intersect": {"records": ["start_a", "end_a", "start_b", "end_b"]},
          "get_offset_block_coords": {"records": ["area", "block"]}}),
+    "hillclimb_allocation": ("ethosu/vela/hillclimb_allocation.py", "SrcHillclimbAllocation", [
+        "LiveRangeInfo.overlaps", "LiveRangeInfo.is_neighbour", "LiveRangeInfo.__lt__"],
+        {"LiveRangeInfo.overlaps": {"records": ["self"]},
+         "LiveRangeInfo.is_neighbour": {"records": ["self", "lr"]},
+         "LiveRangeInfo.__lt__": {"records": ["self", "other"]}}),
+    "live_range": ("ethosu/vela/live_range.py", "SrcLiveRange", [
+        "LiveRange.overlaps_ranges", "LiveRange.mark_usage"],
+        {"LiveRange.overlaps_ranges": {"records": ["self", "other"]},
+         # `mark_usage` assigns `self.start_time` / `self.end_time`: the translated function returns their final values
+         "LiveRange.mark_usage": {"records": ["self"], "attr_stores": ["self.start_time", "self.end_time"]}}),
+    # third round: the boolean part of integer constraint predicates.  Wrapper assumptions (exactly): the decorator
+    # `docstring_format_args(..)` only formats `__doc__`; the second component of the returned pair (an f-string) has no
+    # effect; `op.get_kernel_stride()` returns a pair of integers and `cls.<x>_range` is a pair of integers (both become
+    # parameters); `op.kernel.height`, `op.kernel.area_height()`, ... are side-effect-free integer attributes / methods.
+    "tflite_supported_operators": ("ethosu/vela/tflite_supported_operators.py", "SrcTfliteSupportedOperators", [
+        "TFLiteSupportedOperators." + f for f in _SUP_FNS],
+        {"TFLiteSupportedOperators." + f: {"records": ["op"], "ignore_decorators": ["docstring_format_args"],
+                                           "ret_first_of_pair": True, "record_str_keys": True, "opaque_in_branches": True,
+                                           "opaque": {"op.get_kernel_stride": [N, N], "cls." + r: [N, N]}}
+         for f, r in _SUP_FNS.items()}),
+    "operation": ("ethosu/vela/operation.py", "SrcOperation", [
+        "Kernel.elements_wh", "Kernel.area_width", "Kernel.area_height"],
+        {"Kernel." + f: {"records": ["self"]} for f in ("elements_wh", "area_width", "area_height")}),
+    "weight_compressor": ("ethosu/vela/weight_compressor.py", "SrcWeightCompressor", ["encode_bias"], {}),
 }
 
 _cache = {}
